@@ -328,6 +328,9 @@ pub fn check_reentrant(c: &Reentrant, obs: &mut Obs) -> CaseResult {
 #[derive(Debug, Deserialize)]
 struct ProbeConfig {
     tag: String,
+    /// building this appender takes that long (a syslog/database appender that connects when it is built)
+    #[serde(default)]
+    slow_ms: Option<u64>,
 }
 
 struct ProbeDeserializer {
@@ -354,6 +357,9 @@ impl log4rs::config::Deserialize for ProbeDeserializer {
     type Config = ProbeConfig;
     fn deserialize(&self, config: ProbeConfig, _: &Deserializers) -> anyhow::Result<Box<dyn Append>> {
         self.built.fetch_add(1, Ordering::SeqCst);
+        if let Some(ms) = config.slow_ms {
+            std::thread::sleep(Duration::from_millis(ms));
+        }
         Ok(Box::new(ProbeAppender { tag: config.tag, sink: self.sink.clone() }))
     }
 }
@@ -376,6 +382,9 @@ pub enum Edit {
     WriteOlderMtime(u8),
     /// a perfectly good variant plus a comment holding a byte that is not UTF-8: the file cannot be read as text
     WriteNonUtf8(u8),
+    /// (documents whose last line sits inside a YAML block scalar) the final line break of the file is added or taken
+    /// away - which changes the scalar, i.e. the configuration, although only the very end of the file differs
+    ToggleFinalNewline,
 }
 
 #[derive(Serialize, Deserialize, Debug, Clone)]
@@ -384,6 +393,10 @@ pub struct ReloadCase {
     pub initial: u8,
     pub initial_rate: u8,
     pub edits: Vec<Edit>,
+    /// YAML documents end inside a block scalar (`tag: |` + last line without a line break): the very end of the file
+    /// is significant
+    #[serde(default)]
+    pub tail: bool,
 }
 
 pub fn reload_strategy() -> impl Strategy<Value = ReloadCase> {
@@ -398,8 +411,9 @@ pub fn reload_strategy() -> impl Strategy<Value = ReloadCase> {
         1 => Just(Edit::RemoveRate),
         2 => (0u8..5).prop_map(Edit::WriteOlderMtime),
         2 => (0u8..5).prop_map(Edit::WriteNonUtf8),
+        2 => Just(Edit::ToggleFinalNewline),
     ];
-    (prop::bool::weighted(0.3), 0u8..5, 1u8..60, prop::collection::vec(edit, 1..=12)).prop_map(|(json, initial, initial_rate, edits)| ReloadCase { json, initial, initial_rate, edits })
+    (prop::bool::weighted(0.3), 0u8..5, 1u8..60, prop::collection::vec(edit, 1..=12), prop::bool::weighted(0.4)).prop_map(|(json, initial, initial_rate, edits, tail)| ReloadCase { json, initial, initial_rate, edits, tail: tail && !json })
 }
 
 /// Variant v: routing differs (which targets reach the probe and with which tag).
@@ -439,6 +453,16 @@ fn variant_text(v: u8, rate: Option<u8>, json: bool) -> String {
     }
 }
 
+/// The YAML form of variant v with the probe's tag as the last thing in the file, inside a block scalar: without a
+/// final line break the tag is "vN", with one it is "vN\n".
+fn variant_text_tail(v: u8, rate: Option<u8>, final_newline: bool) -> String {
+    let plain = variant_text(v, rate, false);
+    let tag = format!("v{}", v % 5);
+    let head = format!("appenders:\n  p:\n    kind: probe\n    tag: {}\n", tag);
+    let rest = plain.replace(&head, "");
+    format!("{}appenders:\n  p:\n    kind: probe\n    tag: |\n      {}{}", rest, tag, if final_newline { "\n" } else { "" })
+}
+
 fn garbage(k: u8, json: bool) -> String {
     match (k % 4, json) {
         (0, _) => "{{{ not a document".to_string(),
@@ -460,6 +484,10 @@ fn probe(logger: &log4rs::Logger, sink: &Arc<Mutex<Vec<(String, String)>>>) -> V
     let mut v: Vec<(String, String)> = sink.lock().unwrap().drain(..).collect();
     v.sort();
     v
+}
+
+fn expected_probe_nl(v: u8, nl: bool) -> Vec<(String, String)> {
+    expected_probe(v).into_iter().map(|(tag, t)| (if nl { format!("{}\n", tag) } else { tag }, t)).collect()
 }
 
 fn expected_probe(v: u8) -> Vec<(String, String)> {
@@ -528,7 +556,11 @@ fn check_reload_in(dir: &Path, c: &ReloadCase, obs: &mut Obs) -> CaseResult {
     // model
     let mut file_variant: Option<u8> = Some(c.initial % 5); // what the file currently says (None = garbage/deleted)
     let mut file_rate: Option<u8> = Some(c.initial_rate);
-    let mut file_text = variant_text(c.initial, file_rate, c.json);
+    let vtext = |v: u8, rate: Option<u8>, nl: bool| if c.tail { variant_text_tail(v, rate, nl) } else { variant_text(v, rate, c.json) };
+    // (tail documents) does the file end in a line break / does the active configuration's tag
+    let mut file_nl = false;
+    let mut active_nl = false;
+    let mut file_text = vtext(c.initial, file_rate, file_nl);
     let mut file_exists = true;
     let mut file_mtime = t0;
     set_file(&file_text, file_mtime);
@@ -539,7 +571,7 @@ fn check_reload_in(dir: &Path, c: &ReloadCase, obs: &mut Obs) -> CaseResult {
     let mut rate: Duration = Duration::from_secs(c.initial_rate as u64);
     let mut seen_mtime = file_mtime;
     let mut seen_text = file_text.clone();
-    ensure!(probe(&logger, &sink) == expected_probe(active), "C15:reloader-init", "initial configuration not active");
+    ensure!(probe(&logger, &sink) == expected_probe_nl(active, active_nl), "C15:reloader-init", "initial configuration not active");
     let mut recovered = false;
     let mut had_bad = false;
     let mut touched = false;
@@ -552,7 +584,7 @@ fn check_reload_in(dir: &Path, c: &ReloadCase, obs: &mut Obs) -> CaseResult {
         }
         match e {
             Edit::WriteNonUtf8(v) => {
-                let mut b = variant_text(*v, file_rate, c.json).into_bytes();
+                let mut b = vtext(*v, file_rate, file_nl).into_bytes();
                 b.extend_from_slice(if c.json { b"\n\xE9\n" } else { b"\n# caf\xE9\n" });
                 file_variant = None;
                 file_text = format!("<not UTF-8: variant {}>", v);
@@ -563,14 +595,14 @@ fn check_reload_in(dir: &Path, c: &ReloadCase, obs: &mut Obs) -> CaseResult {
             }
             Edit::WriteValid(v) => {
                 file_variant = Some(*v % 5);
-                file_text = variant_text(*v, file_rate, c.json);
+                file_text = vtext(*v, file_rate, file_nl);
                 file_mtime = fresh;
                 file_exists = true;
                 set_file(&file_text, file_mtime);
             }
             Edit::WriteOlderMtime(v) => {
                 file_variant = Some(*v % 5);
-                file_text = variant_text(*v, file_rate, c.json);
+                file_text = vtext(*v, file_rate, file_nl);
                 older += 7;
                 file_mtime = t0 - Duration::from_secs(older);
                 file_exists = true;
@@ -604,14 +636,22 @@ fn check_reload_in(dir: &Path, c: &ReloadCase, obs: &mut Obs) -> CaseResult {
             Edit::WriteSameMtime(v) => {
                 if file_exists {
                     file_variant = Some(*v % 5);
-                    file_text = variant_text(*v, file_rate, c.json);
+                    file_text = vtext(*v, file_rate, file_nl);
                     set_file(&file_text, file_mtime);
                 }
             }
             Edit::SetRate(r) => {
                 if let (true, Some(v)) = (file_exists, file_variant) {
                     file_rate = Some(*r);
-                    file_text = variant_text(v, file_rate, c.json);
+                    file_text = vtext(v, file_rate, file_nl);
+                    file_mtime = fresh;
+                    set_file(&file_text, file_mtime);
+                }
+            }
+            Edit::ToggleFinalNewline => {
+                if let (true, true, Some(v)) = (c.tail, file_exists, file_variant) {
+                    file_nl = !file_nl;
+                    file_text = vtext(v, file_rate, file_nl);
                     file_mtime = fresh;
                     set_file(&file_text, file_mtime);
                 }
@@ -619,7 +659,7 @@ fn check_reload_in(dir: &Path, c: &ReloadCase, obs: &mut Obs) -> CaseResult {
             Edit::RemoveRate => {
                 if let (true, Some(v)) = (file_exists, file_variant) {
                     file_rate = None;
-                    file_text = variant_text(v, None, c.json);
+                    file_text = vtext(v, None, file_nl);
                     file_mtime = fresh;
                     set_file(&file_text, file_mtime);
                 }
@@ -676,6 +716,7 @@ fn check_reload_in(dir: &Path, c: &ReloadCase, obs: &mut Obs) -> CaseResult {
                     Err(e) => return fail("C15:valid-change-not-applied", format!("{}: a valid changed file was rejected: {}", what, e)),
                 }
                 active = *v;
+                active_nl = c.tail && file_nl;
                 if had_bad {
                     recovered = true;
                 }
@@ -690,9 +731,9 @@ fn check_reload_in(dir: &Path, c: &ReloadCase, obs: &mut Obs) -> CaseResult {
         // behaviour: the active configuration is the last good one
         let got = probe(&logger, &sink);
         ensure!(
-            got == expected_probe(active),
+            got == expected_probe_nl(active, active_nl),
             if matches!(expect, Expect::Applied(..)) { "C15:valid-change-not-applied" } else { "C15:last-good-lost" },
-            "{}: probing the logger shows {:?}, the last good configuration (variant {}) routes {:?}", what, got, active, expected_probe(active)
+            "{}: probing the logger shows {:?}, the last good configuration (variant {}) routes {:?}", what, got, active, expected_probe_nl(active, active_nl)
         );
         if let Expect::Applied(_, None) = expect {
             // the refresh rate was removed: the loop ends here
@@ -705,6 +746,7 @@ fn check_reload_in(dir: &Path, c: &ReloadCase, obs: &mut Obs) -> CaseResult {
     obs.class_if(rate_changed, "rate-changed");
     obs.class_if(touched, "touch-without-change");
     obs.class_if(c.json, "json");
+    obs.class_if(c.tail && c.edits.iter().any(|e| matches!(e, Edit::ToggleFinalNewline)), "edit-confined-to-the-final-line-break");
     obs.class_if(c.edits.iter().any(|e| matches!(e, Edit::WriteOlderMtime(_))), "changed-file-with-older-mtime");
     obs.class_if(c.edits.iter().any(|e| matches!(e, Edit::WriteNonUtf8(_))), "file-not-utf8");
     obs.class_if(c.edits.iter().any(|e| matches!(e, Edit::WriteSameMtime(_))), "same-mtime-different-bytes(modelled)");
@@ -812,6 +854,19 @@ fn smoke_rates(c: &Smoke, obs: &mut Obs) -> CaseResult {
     }
     ensure!(slow.is_empty(), "C15:refresh-rate-lost-after-error", "refresh rate 100 ms (applied from the file, start-up rate was 2 s); after a poll that found the file unparsable, three repaired versions took {:?} to arrive: the last good configuration's refresh rate is no longer in force", slow);
     obs.sub_evals += 1;
+    // 2b. a reload that takes longer than the refresh rate (an appender that is slow to build) is applied, and the
+    // reloader is still there afterwards
+    {
+        let k = next();
+        std::thread::sleep(Duration::from_millis(150));
+        publish(&text(k, "100ms").replace(&format!("    tag: v{}\n", k), &format!("    tag: v{}\n    slow_ms: 450\n", k)));
+        ensure!(wait_for(&format!("v{}", k)).is_some(), "C15:valid-change-not-applied:reloader-thread", "a valid change whose appender takes 450 ms to build (refresh rate 100 ms) was not applied within 30 s");
+        let k = next();
+        std::thread::sleep(Duration::from_millis(300));
+        publish(&text(k, "100ms"));
+        ensure!(wait_for(&format!("v{}", k)).is_some(), "C15:stopped-polling", "after a reload that took longer (450 ms) than the refresh rate (100 ms) the reloader no longer applies valid changes");
+        obs.sub_evals += 1;
+    }
     // 3. a much longer rate is honoured as well: after switching to 1 h nothing is polled for the next seconds
     let k = next();
     std::thread::sleep(Duration::from_millis(150));
@@ -990,7 +1045,7 @@ pub fn replay(part: &str, case: serde_json::Value) -> Option<CaseResult> {
 pub fn meta() -> EvidenceMeta {
     EvidenceMeta {
         level: "exploration",
-        rule: "part swap: a family of configurations whose generation g attaches m_g (1-5, neighbours differ) tagged capture appenders to the root in generated declaration orders; 1-6 logging threads x 200-1500 records with unique ids against 1-2 reconfiguring threads stepping through the family as fast as they can, plus 0-2 threads that call set_config and then log themselves; oracle: no panic; every record id is delivered under exactly one generation and to exactly that generation's m_g appenders; a record logged after the thread's own set_config returned never uses an older generation. part reentrant (exhaustive): an appender at every fan-out position 0..m-1 calls Handle::set_config from inside append: the record in flight completes entirely under the old configuration, the next one uses the new one. part reloader (guarded single-step API, real ConfigReloader::run_once): histories of 1-12 file edits between polls (valid variants that differ in routing, touch, nop, four kinds of garbage, deletion, recreation, same-mtime-different-bytes, refresh-rate change/removal; mtimes set explicitly) against a model of the statement; the active configuration is observed behaviourally (probe records through a custom 'probe' appender kind registered in Deserializers, which also counts rebuilds); plus one real-time smoke case of init_file with refresh_rate 20ms in a child process (timeout = inconclusive). Reloader edits include a valid document plus a byte that is not UTF-8 (unreadable: reported, last good kept). Three smoke cases through the real init_file (in-place edits; a symbolic link re-pointed atomically; a symbolic link whose target is edited in place): a valid change not applied within 30 s at refresh_rate 20 ms is a violation; a fourth with the process's stderr turned into a broken pipe (error reports fail with EPIPE); a fifth on refresh rates (2 s -> 100 ms: later edits arrive within 1 s, also right after a poll that found the file unparsable; -> 1 h: nothing is applied for the next 2.6 s; each timed step is made right after a poll and repeated three times, only three slow answers in a row count). non-trivial = >= 3 generations observed (swap); every reentrant case; a valid change after a bad file, a rate change or a touch (reloader)".into(),
+        rule: "part swap: a family of configurations whose generation g attaches m_g (1-5, neighbours differ) tagged capture appenders to the root in generated declaration orders; 1-6 logging threads x 200-1500 records with unique ids against 1-2 reconfiguring threads stepping through the family as fast as they can, plus 0-2 threads that call set_config and then log themselves; oracle: no panic; every record id is delivered under exactly one generation and to exactly that generation's m_g appenders; a record logged after the thread's own set_config returned never uses an older generation. part reentrant (exhaustive): an appender at every fan-out position 0..m-1 calls Handle::set_config from inside append: the record in flight completes entirely under the old configuration, the next one uses the new one. part reloader (guarded single-step API, real ConfigReloader::run_once): histories of 1-12 file edits between polls (valid variants that differ in routing, touch, nop, four kinds of garbage, deletion, recreation, same-mtime-different-bytes, refresh-rate change/removal; mtimes set explicitly) against a model of the statement; the active configuration is observed behaviourally (probe records through a custom 'probe' appender kind registered in Deserializers, which also counts rebuilds); plus one real-time smoke case of init_file with refresh_rate 20ms in a child process (timeout = inconclusive). Reloader edits include adding/removing the file's final line break where the document ends inside a block scalar (the configuration changes), and a valid document plus a byte that is not UTF-8 (unreadable: reported, last good kept). Three smoke cases through the real init_file (in-place edits; a symbolic link re-pointed atomically; a symbolic link whose target is edited in place): a valid change not applied within 30 s at refresh_rate 20 ms is a violation; a fourth with the process's stderr turned into a broken pipe (error reports fail with EPIPE); a fifth on refresh rates (2 s -> 100 ms: later edits arrive within 1 s, also right after a poll that found the file unparsable; -> 1 h: nothing is applied for the next 2.6 s; each timed step is made right after a poll and repeated three times, only three slow answers in a row count). non-trivial = >= 3 generations observed (swap); every reentrant case; a valid change after a bad file, a rate change or a touch (reloader)".into(),
         assumptions: vec![
             "OS scheduler not controlled: swaps between two specific instructions of Log::log are hit statistically (volume) - the re-entrant plans place the swap deterministically at every fan-out position".into(),
             "liveness of the reloader thread: single-step API plus one bounded real-time smoke case".into(),
